@@ -1,1 +1,1456 @@
-//! c36_system (ntpd): not implemented yet.
+//! C36 (system-task link) — `ntpd/src/daemon/system.rs`, the task between the source tasks and the spawners.
+//!
+//! The "system events" C36 quantifies over are produced here: a source task reports
+//! `MsgForSystem::{MustDemobilize, NetworkIssue, Unreachable}(id)`, the system task must drop exactly that
+//! source and tell exactly the spawner that created it `SourceRemoved{id, Demobilized | NetworkIssue |
+//! Unreachable}`; `handle_spawn_event` records which spawner owns a new source and answers with
+//! `SourceRegistered`. gl's c36.rs plays the system by hand; this module drives the REAL one.
+//!
+//! Part X (explicit state, exhaustive): the real `SystemTask` (built by `SystemTask::new` as `spawn` does, mock
+//! clock), two scripted spawners S1,S2 registered with the real `add_spawner` (=> real `spawner_task`s deliver the
+//! notifications to the real `Spawner` trait methods, which record them), events
+//!   `S<i>`      spawner i asks for a new NTP source  -> real `handle_spawn_event` -> real `create_source`
+//!               (a real `SourceTask` is spawned; it polls a closed loopback port once),
+//!   `R<j><k>`   source j (creation index; `x` = an id that never existed) reports k in {D,N,U}
+//!               -> real `handle_source_update`,
+//! (1) ALL event sequences up to depth 4 / 5 (<= 3 live sources), (2) all (state, event) pairs of the
+//! deduplicated state graph up to depth 5 / 7, state = per created source (owner, live | removed by k).
+//! Reference model: BTreeMap live source -> owner and the list of what each spawner must have been told.
+//! Part E (end to end): S1 is the REAL `StandardSpawner` (DNS stub with 8 distinct addresses), S2 scripted, the
+//! system runs its REAL `run` loop; reports are put on the channel the source tasks hold. ALL words of length
+//! 4 / 5 / 6 over {W wait 1.1 s, RD RN RU report for S1's live source, M S2 creates, rD rN rU report for S2's}.
+//! Part K (soak, one deterministic run): nothing is injected; the real source task gives up by itself.
+use std::collections::{BTreeMap, BTreeSet};
+use std::future::Future;
+use std::net::{Ipv4Addr, SocketAddr};
+use std::sync::{Arc, Mutex};
+use std::task::Poll;
+use std::time::Duration;
+
+use ntp_proto::{ClockId, ProtocolVersion, SourceConfig};
+use tokio::sync::mpsc;
+
+use super::common::{self, Ctx};
+use crate::daemon::config::verif_probe::ntp_source_probe::gt as dns;
+use crate::daemon::config::{NormalizedAddress, NtpAddress, StandardSource};
+use crate::daemon::ntp_source::MsgForSystem;
+use crate::daemon::spawn::{
+    NtpSourceCreateParameters, SourceCreateParameters, SourceRemovalReason, SourceRemovedEvent,
+    SpawnAction, SpawnEvent, Spawner, SpawnerId, standard::StandardSpawner,
+};
+use crate::daemon::system::verif_probe::gt as sp;
+
+// ---------------------------------------------------------------------------------------------
+// alphabet
+// ---------------------------------------------------------------------------------------------
+
+#[derive(Clone, Copy, PartialEq, Eq, Hash, Debug, PartialOrd, Ord)]
+pub(super) enum Kind {
+    D,
+    N,
+    U,
+}
+
+impl Kind {
+    pub(super) const ALL: [Kind; 3] = [Kind::D, Kind::N, Kind::U];
+    pub(super) fn ch(self) -> char {
+        match self {
+            Kind::D => 'D',
+            Kind::N => 'N',
+            Kind::U => 'U',
+        }
+    }
+    pub(super) fn from_ch(c: char) -> Option<Kind> {
+        match c {
+            'D' | 'd' => Some(Kind::D),
+            'N' | 'n' => Some(Kind::N),
+            'U' | 'u' => Some(Kind::U),
+            _ => None,
+        }
+    }
+    /// what the source task sends
+    pub(super) fn msg(self, id: ClockId) -> MsgForSystem {
+        match self {
+            Kind::D => MsgForSystem::MustDemobilize(id),
+            Kind::N => MsgForSystem::NetworkIssue(id),
+            Kind::U => MsgForSystem::Unreachable(id),
+        }
+    }
+    /// STATEMENT: MustDemobilize -> Demobilized (never respawned), NetworkIssue -> NetworkIssue,
+    /// Unreachable -> Unreachable (re-resolved).
+    pub(super) fn expected_reason(self) -> char {
+        match self {
+            Kind::D => 'D',
+            Kind::N => 'N',
+            Kind::U => 'U',
+        }
+    }
+}
+
+fn reason_ch(r: &SourceRemovalReason) -> char {
+    match r {
+        SourceRemovalReason::Demobilized => 'D',
+        SourceRemovalReason::NetworkIssue => 'N',
+        SourceRemovalReason::Unreachable => 'U',
+    }
+}
+
+pub(super) const GHOST: u8 = 255;
+
+#[derive(Clone, Copy, PartialEq, Eq, Hash, Debug)]
+pub(super) enum Ev {
+    Spawn(u8),
+    Report(u8, Kind),
+}
+
+pub(super) fn fmt_trace(evs: &[Ev]) -> String {
+    let mut v = Vec::new();
+    for e in evs {
+        v.push(match e {
+            Ev::Spawn(s) => format!("S{}", s + 1),
+            Ev::Report(GHOST, k) => format!("Rx{}", k.ch()),
+            Ev::Report(j, k) => format!("R{}{}", j, k.ch()),
+        });
+    }
+    v.join(",")
+}
+
+pub(super) fn parse_trace(s: &str) -> Option<Vec<Ev>> {
+    let mut v = Vec::new();
+    for t in s.split(',').map(|t| t.trim()).filter(|t| !t.is_empty()) {
+        let c: Vec<char> = t.chars().collect();
+        match c[0] {
+            'S' if c.len() == 2 => v.push(Ev::Spawn(match c[1] {
+                '1' => 0,
+                '2' => 1,
+                _ => return None,
+            })),
+            'R' if c.len() >= 3 => {
+                let k = Kind::from_ch(*c.last()?)?;
+                let mid: String = c[1..c.len() - 1].iter().collect();
+                let j = if mid == "x" { GHOST } else { mid.parse::<u8>().ok()? };
+                v.push(Ev::Report(j, k));
+            }
+            _ => return None,
+        }
+    }
+    Some(v)
+}
+
+// ---------------------------------------------------------------------------------------------
+// scripted spawner: a real `Spawner` that records what the system tells it
+// ---------------------------------------------------------------------------------------------
+
+#[derive(Default)]
+pub(super) struct MockLog {
+    /// (is_registration, source id, reason char or '-')
+    pub(super) told: Vec<(bool, ClockId, char)>,
+    pub(super) try_spawn: u32,
+}
+
+pub(super) struct MockSpawner {
+    id: SpawnerId,
+    log: Arc<Mutex<MockLog>>,
+}
+
+impl MockSpawner {
+    pub(super) fn new() -> (MockSpawner, SpawnerId, Arc<Mutex<MockLog>>) {
+        let id = SpawnerId::new();
+        let log = Arc::new(Mutex::new(MockLog::default()));
+        (
+            MockSpawner {
+                id,
+                log: log.clone(),
+            },
+            id,
+            log,
+        )
+    }
+}
+
+impl Spawner for MockSpawner {
+    type Error = std::io::Error;
+
+    async fn try_spawn(&mut self, _action_tx: &mpsc::Sender<SpawnEvent>) -> Result<(), Self::Error> {
+        self.log.lock().unwrap().try_spawn += 1;
+        Ok(())
+    }
+    fn is_complete(&self) -> bool {
+        true // creations are emitted on demand by the harness, with this spawner's id
+    }
+    async fn handle_source_removed(&mut self, e: SourceRemovedEvent) -> Result<(), Self::Error> {
+        self.log
+            .lock()
+            .unwrap()
+            .told
+            .push((false, e.id, reason_ch(&e.reason)));
+        Ok(())
+    }
+    async fn handle_registered(&mut self, e: SourceCreateParameters) -> Result<(), Self::Error> {
+        self.log.lock().unwrap().told.push((true, e.get_id(), '-'));
+        Ok(())
+    }
+    fn get_id(&self) -> SpawnerId {
+        self.id
+    }
+    fn get_addr_description(&self) -> String {
+        "scripted".into()
+    }
+    fn get_description(&self) -> &'static str {
+        "scripted"
+    }
+}
+
+// ---------------------------------------------------------------------------------------------
+// running one trace against the real system task (direct drive)
+// ---------------------------------------------------------------------------------------------
+
+const PORT: u16 = 39_123; // nothing listens there; the single poll of a source is answered by ICMP at most
+
+pub(super) fn source_addr(idx: usize) -> SocketAddr {
+    SocketAddr::from((Ipv4Addr::new(127, 0, 37, (idx + 1) as u8), PORT))
+}
+
+pub(super) fn ntp_params(id: ClockId, idx: usize) -> SourceCreateParameters {
+    SourceCreateParameters::Ntp(NtpSourceCreateParameters {
+        id,
+        addr: source_addr(idx),
+        normalized_addr: NormalizedAddress::with_hardcoded_dns(&format!("src{idx}.gt.test"), PORT, vec![]),
+        protocol_version: ProtocolVersion::V4,
+        config: SourceConfig::default(),
+        nts: None,
+    })
+}
+
+/// Everything that was ready runs before the paused clock auto-advances; twice, because tasks woken by a timer
+/// at the same instant as the harness are polled after it.
+pub(super) async fn sync() {
+    tokio::time::sleep(Duration::from_millis(1)).await;
+    tokio::time::sleep(Duration::from_millis(1)).await;
+}
+
+/// Await `f`, turning a panic of the code under test into `Err(message)`.
+pub(super) async fn guarded<T>(f: impl Future<Output = T>) -> Result<T, String> {
+    let mut f = Box::pin(f);
+    std::future::poll_fn(move |cx| match common::catch(|| f.as_mut().poll(cx)) {
+        Ok(Poll::Ready(v)) => Poll::Ready(Ok(v)),
+        Ok(Poll::Pending) => Poll::Pending,
+        Err(m) => Poll::Ready(Err(m)),
+    })
+    .await
+}
+
+#[derive(Clone, Debug, PartialEq, Eq, Hash)]
+pub(super) enum Outcome {
+    Ok,
+    Err(String),
+    Panic(String),
+}
+
+/// what a spawner was told, in creation indices (254 = an id the harness never created, 255 = the ghost id)
+#[derive(Clone, Copy, Debug, PartialEq, Eq, Hash)]
+pub(super) enum Told {
+    Reg(u8),
+    Rem(u8, char),
+}
+
+#[derive(Clone, Debug, PartialEq, Eq, Hash)]
+pub(super) struct StepObs {
+    pub(super) outcome: Outcome,
+    /// rows of the private `sources` table: (creation index, owner 0/1 (9 = unknown spawner), row well formed)
+    pub(super) table: Vec<(u8, u8, bool)>,
+    pub(super) told: [Vec<Told>; 2],
+}
+
+#[derive(Clone, Debug, PartialEq, Eq, Hash, Default)]
+pub(super) struct RunObs {
+    pub(super) steps: Vec<StepObs>,
+    /// published snapshots at the end: (creation index, name+address are the ones of the create parameters)
+    pub(super) snapshots: Vec<(u8, bool)>,
+    pub(super) snapshot_map_shared: bool,
+    pub(super) own_reports: usize,
+    pub(super) try_spawn_calls: u32,
+    pub(super) clock_adjustments: u64,
+    pub(super) table_poisoned: bool,
+}
+
+fn idx_of(ids: &[ClockId], ghost: ClockId, id: ClockId) -> u8 {
+    if id == ghost {
+        return GHOST;
+    }
+    ids.iter().position(|x| *x == id).map(|p| p as u8).unwrap_or(254)
+}
+
+pub(super) fn run_trace(evs: &[Ev]) -> RunObs {
+    let evs = evs.to_vec();
+    super::block_on_paused(async move {
+        let mut sys = sp::Sys::new();
+        let (m0, id0, log0) = MockSpawner::new();
+        let (m1, id1, log1) = MockSpawner::new();
+        let n0 = sys.add_spawner(m0);
+        let n1 = sys.add_spawner(m1);
+        let sids = [id0, id1];
+        let logs = [log0, log1];
+        let taps = sys.taps();
+        let ghost = ClockId::new();
+        let mut ids: Vec<ClockId> = Vec::new();
+        let mut run = RunObs::default();
+        run.snapshot_map_shared = sys.snapshot_map_shared();
+        sync().await;
+        for ev in &evs {
+            let outcome = match *ev {
+                Ev::Spawn(s) => {
+                    let id = ClockId::new();
+                    let idx = ids.len();
+                    ids.push(id);
+                    let e = SpawnEvent::new(sids[s as usize], SpawnAction::Create(ntp_params(id, idx)));
+                    guarded(sys.handle_spawn_event(e)).await
+                }
+                Ev::Report(j, k) => {
+                    let id = if j == GHOST {
+                        ghost
+                    } else {
+                        match ids.get(j as usize) {
+                            Some(id) => *id,
+                            None => ghost,
+                        }
+                    };
+                    guarded(sys.handle_source_update(k.msg(id))).await
+                }
+            };
+            let outcome = match outcome {
+                Ok(Ok(())) => Outcome::Ok,
+                Ok(Err(e)) => Outcome::Err(e),
+                Err(p) => Outcome::Panic(p),
+            };
+            sync().await;
+            let table = taps
+                .rows()
+                .iter()
+                .map(|r| {
+                    (
+                        idx_of(&ids, ghost, r.key),
+                        if r.spawner == n0 {
+                            0
+                        } else if r.spawner == n1 {
+                            1
+                        } else {
+                            9
+                        },
+                        r.key == r.source_id && r.is_ntp,
+                    )
+                })
+                .collect();
+            let told = [0, 1].map(|s| {
+                logs[s]
+                    .lock()
+                    .unwrap()
+                    .told
+                    .iter()
+                    .map(|(reg, id, r)| {
+                        if *reg {
+                            Told::Reg(idx_of(&ids, ghost, *id))
+                        } else {
+                            Told::Rem(idx_of(&ids, ghost, *id), *r)
+                        }
+                    })
+                    .collect::<Vec<_>>()
+            });
+            let stop = matches!(outcome, Outcome::Panic(_));
+            run.steps.push(StepObs { outcome, table, told });
+            if stop {
+                break;
+            }
+        }
+        // every created source's task publishes its snapshot at its first poll (timer 0 s)
+        for _ in 0..20 {
+            if taps.snapshot_rows().len() >= ids.len() {
+                break;
+            }
+            sync().await;
+        }
+        run.snapshots = taps
+            .snapshot_rows()
+            .iter()
+            .map(|(id, name, addr)| {
+                let i = idx_of(&ids, ghost, *id);
+                let ok = (i as usize) < ids.len()
+                    && *addr == source_addr(i as usize).to_string()
+                    && *name == format!("src{i}.gt.test:{PORT}");
+                (i, ok)
+            })
+            .collect();
+        run.snapshots.sort();
+        run.own_reports = sys.drain_own_reports().len();
+        run.try_spawn_calls = logs.iter().map(|l| l.lock().unwrap().try_spawn).sum();
+        run.clock_adjustments = sys.clock_adjustments();
+        run.table_poisoned = taps.table_poisoned();
+        run
+    })
+}
+
+// ---------------------------------------------------------------------------------------------
+// reference model + judge (from the statement; nothing here looks at system.rs)
+// ---------------------------------------------------------------------------------------------
+
+#[derive(Clone, Copy, PartialEq, Eq, Hash, Debug, PartialOrd, Ord)]
+pub(super) enum Status {
+    Live,
+    Removed(Kind),
+}
+
+#[derive(Clone, PartialEq, Eq, Hash, Debug, Default, PartialOrd, Ord)]
+pub(super) struct Model {
+    /// per created source, in creation order
+    pub(super) sources: Vec<(u8, Status)>,
+}
+
+impl Model {
+    pub(super) fn live(&self) -> BTreeMap<u8, u8> {
+        self.sources
+            .iter()
+            .enumerate()
+            .filter(|(_, (_, st))| *st == Status::Live)
+            .map(|(i, (o, _))| (i as u8, *o))
+            .collect()
+    }
+    pub(super) fn is_live(&self, j: u8) -> bool {
+        matches!(self.sources.get(j as usize), Some((_, Status::Live)))
+    }
+    /// events enabled in this state (`max_live` bounds Spawn)
+    pub(super) fn enabled(&self, max_live: usize) -> Vec<Ev> {
+        let mut v = Vec::new();
+        if self.live().len() < max_live {
+            v.push(Ev::Spawn(0));
+            v.push(Ev::Spawn(1));
+        }
+        for j in 0..self.sources.len() as u8 {
+            for k in Kind::ALL {
+                v.push(Ev::Report(j, k));
+            }
+        }
+        for k in Kind::ALL {
+            v.push(Ev::Report(GHOST, k));
+        }
+        v
+    }
+    pub(super) fn is_stale(&self, ev: &Ev) -> bool {
+        matches!(ev, Ev::Report(j, _) if !self.is_live(*j))
+    }
+    pub(super) fn apply(&mut self, ev: &Ev) {
+        match *ev {
+            Ev::Spawn(s) => self.sources.push((s, Status::Live)),
+            Ev::Report(j, k) => {
+                if self.is_live(j) {
+                    self.sources[j as usize].1 = Status::Removed(k);
+                }
+            }
+        }
+    }
+}
+
+#[derive(Clone, Debug)]
+pub(super) struct Finding {
+    pub(super) code: &'static str,
+    pub(super) what: String,
+    pub(super) step: usize,
+}
+
+#[derive(Default, Clone, Debug)]
+pub(super) struct Stats {
+    pub(super) steps: u64,
+    pub(super) spawns: [u64; 2],
+    pub(super) removals: [u64; 3],
+    pub(super) removals_with_other_live: u64,
+    pub(super) removals_other_spawner_has_live: u64,
+    pub(super) stale_ignored_ok: u64,
+    pub(super) stale_ignored_err: u64,
+    pub(super) stale_abort: u64,
+    pub(super) events_not_run_after_abort: u64,
+    pub(super) snapshots_checked: u64,
+    pub(super) rig_anomalies: u64,
+}
+
+/// Judge one run step by step; stops at the first finding (the model has diverged then).
+pub(super) fn judge(evs: &[Ev], run: &RunObs) -> (Option<Finding>, Stats, Model) {
+    let mut st = Stats::default();
+    let mut m = Model::default();
+    let mut expect: [Vec<Told>; 2] = [Vec::new(), Vec::new()];
+    let empty: [Vec<Told>; 2] = [Vec::new(), Vec::new()];
+    let fail = |code: &'static str, what: String, step: usize, st: Stats, m: Model| {
+        (Some(Finding { code, what, step }), st, m)
+    };
+    for (i, ev) in evs.iter().enumerate() {
+        let Some(obs) = run.steps.get(i) else {
+            st.events_not_run_after_abort += (evs.len() - i) as u64;
+            return (None, st, m);
+        };
+        st.steps += 1;
+        let prev = if i == 0 { &empty } else { &run.steps[i - 1].told };
+        let stale = m.is_stale(ev);
+        let before = m.clone();
+        m.apply(ev);
+        let want_table: Vec<(u8, u8, bool)> = m.live().iter().map(|(j, o)| (*j, *o, true)).collect();
+        let news: [Vec<Told>; 2] = [0, 1].map(|s| {
+            if obs.told[s].len() >= prev[s].len() && obs.told[s][..prev[s].len()] == prev[s][..] {
+                obs.told[s][prev[s].len()..].to_vec()
+            } else {
+                vec![Told::Reg(253)] // history rewritten: cannot happen with an append-only log
+            }
+        });
+        if stale {
+            // (c) an unknown / already removed id: nothing changes, nobody is told. Whether the handler
+            // ignores it (Ok / Err) or the system task aborts is recorded, not judged (see the assumption).
+            if obs.table != want_table || !news[0].is_empty() || !news[1].is_empty() {
+                return fail(
+                    "stale-report-side-effect",
+                    format!(
+                        "{:?} for a source that is not live changed something: table {:?} (want {:?}), told {:?}",
+                        ev, obs.table, want_table, news
+                    ),
+                    i,
+                    st,
+                    m,
+                );
+            }
+            match &obs.outcome {
+                Outcome::Ok => st.stale_ignored_ok += 1,
+                Outcome::Err(_) => st.stale_ignored_err += 1,
+                Outcome::Panic(_) => {
+                    st.stale_abort += 1;
+                    st.events_not_run_after_abort += (evs.len() - i - 1) as u64;
+                    return (None, st, m);
+                }
+            }
+            continue;
+        }
+        match &obs.outcome {
+            Outcome::Ok => {}
+            Outcome::Err(e) => {
+                return fail("handler-error", format!("{ev:?} returned Err({e}): the run loop would end"), i, st, m);
+            }
+            Outcome::Panic(p) => {
+                return fail("panic", format!("{ev:?} panicked: {p}"), i, st, m);
+            }
+        }
+        match *ev {
+            Ev::Spawn(s) => {
+                st.spawns[s as usize] += 1;
+                let idx = (m.sources.len() - 1) as u8;
+                expect[s as usize].push(Told::Reg(idx));
+                if obs.table != want_table {
+                    let code = if !obs.table.iter().any(|r| r.0 == idx) {
+                        "source-not-recorded"
+                    } else if obs.table.iter().any(|r| r.0 == idx && r.1 != s) {
+                        "source-wrong-owner"
+                    } else {
+                        "table-corrupted"
+                    };
+                    return fail(code, format!("after S{}: table {:?}, want {:?}", s + 1, obs.table, want_table), i, st, m);
+                }
+                let o = 1 - s as usize;
+                if news[s as usize] != [Told::Reg(idx)] || !news[o].is_empty() {
+                    let code = if !news[o].is_empty() {
+                        "registration-misdelivered"
+                    } else if news[s as usize].is_empty() {
+                        "registration-not-notified"
+                    } else {
+                        "registration-wrong"
+                    };
+                    return fail(
+                        code,
+                        format!("after S{}: spawners were told {:?}, want S{} told [Reg({idx})] only", s + 1, news, s + 1),
+                        i,
+                        st,
+                        m,
+                    );
+                }
+            }
+            Ev::Report(j, k) => {
+                let owner = before.live()[&j] as usize;
+                let other = 1 - owner;
+                st.removals[k as usize] += 1;
+                if before.live().len() > 1 {
+                    st.removals_with_other_live += 1;
+                }
+                if before.live().values().any(|o| *o as usize == other) {
+                    st.removals_other_spawner_has_live += 1;
+                }
+                let want = Told::Rem(j, k.expected_reason());
+                expect[owner].push(want);
+                if obs.table != want_table {
+                    let code = if obs.table.iter().any(|r| r.0 == j) {
+                        "source-not-removed"
+                    } else if want_table.iter().any(|w| !obs.table.contains(w)) {
+                        "wrong-source-removed"
+                    } else {
+                        "table-corrupted"
+                    };
+                    return fail(code, format!("after R{j}{}: table {:?}, want {:?}", k.ch(), obs.table, want_table), i, st, m);
+                }
+                if news[owner] != [want] || !news[other].is_empty() {
+                    let code = if !news[other].is_empty() {
+                        "removal-misdelivered"
+                    } else if news[owner].is_empty() {
+                        "removal-not-notified"
+                    } else if news[owner].len() > 1 {
+                        "removal-duplicated"
+                    } else {
+                        match news[owner][0] {
+                            Told::Rem(jj, _) if jj != j => "removal-wrong-id",
+                            Told::Rem(_, _) => "wrong-removal-reason",
+                            Told::Reg(_) => "removal-not-notified",
+                        }
+                    };
+                    return fail(
+                        code,
+                        format!(
+                            "after R{j}{} (owner S{}): S1 told {:?}, S2 told {:?}; want S{} told [{:?}] only",
+                            k.ch(),
+                            owner + 1,
+                            news[0],
+                            news[1],
+                            owner + 1,
+                            want
+                        ),
+                        i,
+                        st,
+                        m,
+                    );
+                }
+            }
+        }
+        if obs.told != expect {
+            return fail("notification-history-mismatch", format!("told {:?}, want {:?}", obs.told, expect), i, st, m);
+        }
+    }
+    // end of trace: (d') every created source's REAL task was started with the id / name / address of its
+    // create parameters and publishes into the map the observer reads.
+    let aborted = run.steps.iter().any(|s| matches!(s.outcome, Outcome::Panic(_)));
+    if !aborted {
+        let n = m.sources.len();
+        let want: Vec<(u8, bool)> = (0..n as u8).map(|i| (i, true)).collect();
+        st.snapshots_checked += n as u64;
+        if !run.snapshot_map_shared {
+            return fail("snapshot-map-not-shared", "DaemonChannels.source_snapshots is not the map given to the tasks".into(), evs.len(), st, m);
+        }
+        if run.snapshots != want {
+            return fail(
+                "source-task-not-started",
+                format!("published snapshots {:?}, want one well-formed entry per created source {:?}", run.snapshots, want),
+                evs.len(),
+                st,
+                m,
+            );
+        }
+    }
+    if run.own_reports != 0 || run.try_spawn_calls != 0 {
+        st.rig_anomalies += 1;
+    }
+    (None, st, m)
+}
+
+pub(super) fn add_stats(ctx: &Ctx, st: &Stats) {
+    ctx.add("x_steps_executed", st.steps);
+    ctx.add("x_spawns_by_S1", st.spawns[0]);
+    ctx.add("x_spawns_by_S2", st.spawns[1]);
+    ctx.add("x_removals_demobilize", st.removals[0]);
+    ctx.add("x_removals_network_issue", st.removals[1]);
+    ctx.add("x_removals_unreachable", st.removals[2]);
+    ctx.add("x_removals_while_another_source_live", st.removals_with_other_live);
+    ctx.add("x_removals_while_other_spawner_has_live_source", st.removals_other_spawner_has_live);
+    ctx.add("x_stale_report_ignored_ok", st.stale_ignored_ok);
+    ctx.add("x_stale_report_ignored_err", st.stale_ignored_err);
+    ctx.add("x_stale_report_aborts_system_task", st.stale_abort);
+    ctx.add("x_events_not_run_after_abort", st.events_not_run_after_abort);
+    ctx.add("x_source_task_snapshots_checked", st.snapshots_checked);
+    ctx.add("x_rig_anomalies", st.rig_anomalies);
+}
+
+// ---------------------------------------------------------------------------------------------
+// trace generation from the model
+// ---------------------------------------------------------------------------------------------
+
+/// Does a report for a source that is not live abort the system task in this build? (decides only whether
+/// such a report is the last event of a generated trace; every run is judged independently of this)
+pub(super) fn stale_report_aborts() -> bool {
+    let t = [Ev::Spawn(0), Ev::Report(0, Kind::D), Ev::Report(0, Kind::D)];
+    let r = run_trace(&t);
+    let a = matches!(r.steps.last().map(|s| &s.outcome), Some(Outcome::Panic(_)));
+    let g = run_trace(&[Ev::Report(GHOST, Kind::U)]);
+    let b = matches!(g.steps.last().map(|s| &s.outcome), Some(Outcome::Panic(_)));
+    a || b
+}
+
+pub(super) struct Plan {
+    /// maximal traces: running them executes every edge
+    pub(super) traces: Vec<Vec<Ev>>,
+    pub(super) edges: u64,
+    pub(super) states: BTreeSet<Model>,
+}
+
+/// (1) the full tree: ALL event sequences of length <= depth.
+pub(super) fn full_tree(depth: usize, max_live: usize, stale_terminal: bool) -> Plan {
+    fn rec(m: &Model, pre: &mut Vec<Ev>, depth: usize, max_live: usize, stale_terminal: bool, p: &mut Plan) {
+        p.states.insert(m.clone());
+        if pre.len() == depth {
+            p.traces.push(pre.clone());
+            return;
+        }
+        for ev in m.enabled(max_live) {
+            p.edges += 1;
+            pre.push(ev);
+            if stale_terminal && m.is_stale(&ev) {
+                p.traces.push(pre.clone());
+            } else {
+                let mut n = m.clone();
+                n.apply(&ev);
+                rec(&n, pre, depth, max_live, stale_terminal, p);
+            }
+            pre.pop();
+        }
+    }
+    let mut p = Plan {
+        traces: Vec::new(),
+        edges: 0,
+        states: BTreeSet::new(),
+    };
+    rec(&Model::default(), &mut Vec::new(), depth, max_live, stale_terminal, &mut p);
+    p
+}
+
+/// (2) breadth-first over the deduplicated state graph: one trace per (state, enabled event).
+pub(super) fn state_graph(depth: usize, max_live: usize) -> Plan {
+    let mut p = Plan {
+        traces: Vec::new(),
+        edges: 0,
+        states: BTreeSet::new(),
+    };
+    let mut frontier: Vec<(Model, Vec<Ev>)> = vec![(Model::default(), Vec::new())];
+    p.states.insert(Model::default());
+    for _ in 0..depth {
+        let mut next = Vec::new();
+        for (m, rep) in &frontier {
+            for ev in m.enabled(max_live) {
+                p.edges += 1;
+                let mut t = rep.clone();
+                t.push(ev);
+                p.traces.push(t.clone());
+                if m.is_stale(&ev) {
+                    continue; // same state (or the system task is gone)
+                }
+                let mut n = m.clone();
+                n.apply(&ev);
+                if p.states.insert(n.clone()) {
+                    next.push((n, t));
+                }
+            }
+        }
+        frontier = next;
+    }
+    p
+}
+
+/// Run + judge every trace of a plan in parallel. Returns the findings (deduplicated by (code, trace)).
+pub(super) fn run_plan(ctx: &Ctx, plan: &Plan, det_every: u64) -> Vec<(Finding, String)> {
+    let findings: Mutex<Vec<(Finding, String)>> = Mutex::new(Vec::new());
+    let total: Mutex<Stats> = Mutex::new(Stats::default());
+    let nondet = std::sync::atomic::AtomicU64::new(0);
+    let reruns = std::sync::atomic::AtomicU64::new(0);
+    common::par_for(plan.traces.len() as u64, 4, |i| {
+        let t = &plan.traces[i as usize];
+        let run = run_trace(t);
+        if det_every > 0 && i % det_every == 0 {
+            reruns.fetch_add(1, std::sync::atomic::Ordering::Relaxed);
+            if run_trace(t) != run {
+                nondet.fetch_add(1, std::sync::atomic::Ordering::Relaxed);
+            }
+        }
+        let (f, st, _) = judge(t, &run);
+        ctx.distinct(common::hash_of(&(t, &run.steps)));
+        {
+            let mut tot = total.lock().unwrap();
+            tot.steps += st.steps;
+            for s in 0..2 {
+                tot.spawns[s] += st.spawns[s];
+            }
+            for k in 0..3 {
+                tot.removals[k] += st.removals[k];
+            }
+            tot.removals_with_other_live += st.removals_with_other_live;
+            tot.removals_other_spawner_has_live += st.removals_other_spawner_has_live;
+            tot.stale_ignored_ok += st.stale_ignored_ok;
+            tot.stale_ignored_err += st.stale_ignored_err;
+            tot.stale_abort += st.stale_abort;
+            tot.events_not_run_after_abort += st.events_not_run_after_abort;
+            tot.snapshots_checked += st.snapshots_checked;
+            tot.rig_anomalies += st.rig_anomalies;
+        }
+        if let Some(f) = f {
+            // report the shortest prefix that shows it
+            let upto = (f.step + 1).min(t.len());
+            findings.lock().unwrap().push((f, fmt_trace(&t[..upto])));
+        }
+    });
+    add_stats(ctx, &total.lock().unwrap());
+    ctx.add("determinism_reruns", reruns.load(std::sync::atomic::Ordering::Relaxed));
+    ctx.add("determinism_differences", nondet.load(std::sync::atomic::Ordering::Relaxed));
+    let mut v = findings.into_inner().unwrap();
+    v.sort_by(|a, b| (a.1.len(), &a.1, a.0.code).cmp(&(b.1.len(), &b.1, b.0.code)));
+    v.dedup_by(|a, b| a.1 == b.1 && a.0.code == b.0.code);
+    v
+}
+
+// ---------------------------------------------------------------------------------------------
+// Part E: real StandardSpawner + scripted S2 under the real `run` loop
+// ---------------------------------------------------------------------------------------------
+
+#[derive(Clone, Copy, PartialEq, Eq, Hash, Debug)]
+pub(super) enum E2 {
+    /// 1.1 s of virtual time: a spawner that wants a source gets a ticket and attempts
+    W,
+    /// S1's live source reports (no-op when S1 has none)
+    R(Kind),
+    /// S2 creates a source
+    M,
+    /// S2's newest live source reports (no-op when S2 has none)
+    Q(Kind),
+}
+
+pub(super) const E2_ALPHABET: [E2; 8] = [
+    E2::W,
+    E2::R(Kind::D),
+    E2::R(Kind::N),
+    E2::R(Kind::U),
+    E2::M,
+    E2::Q(Kind::D),
+    E2::Q(Kind::N),
+    E2::Q(Kind::U),
+];
+
+pub(super) fn fmt_e2(evs: &[E2]) -> String {
+    evs.iter()
+        .map(|e| match e {
+            E2::W => "W".to_string(),
+            E2::R(k) => format!("R{}", k.ch()),
+            E2::M => "M".to_string(),
+            E2::Q(k) => format!("r{}", k.ch()),
+        })
+        .collect::<Vec<_>>()
+        .join(",")
+}
+
+pub(super) fn parse_e2(s: &str) -> Option<Vec<E2>> {
+    s.split(',')
+        .map(|t| t.trim())
+        .filter(|t| !t.is_empty())
+        .map(|t| {
+            let c: Vec<char> = t.chars().collect();
+            match (c[0], c.get(1)) {
+                ('W', None) => Some(E2::W),
+                ('M', None) => Some(E2::M),
+                ('R', Some(k)) => Kind::from_ch(*k).map(E2::R),
+                ('r', Some(k)) => Kind::from_ch(*k).map(E2::Q),
+                _ => None,
+            }
+        })
+        .collect()
+}
+
+pub(super) fn dns_raw() -> Vec<SocketAddr> {
+    (1..=8u8)
+        .map(|i| SocketAddr::from((Ipv4Addr::new(127, 0, 36, i), PORT)))
+        .collect()
+}
+
+#[derive(Clone, Debug, PartialEq, Eq, Hash, Default)]
+pub(super) struct E2Step {
+    pub(super) applied: bool,
+    /// the source the report was about (creation order number of S1 / S2 sources as the harness saw them appear)
+    pub(super) target: Option<u32>,
+    /// S1-owned rows of the table after the step, as appearance numbers
+    pub(super) s1_rows: Vec<u32>,
+    pub(super) s2_rows: Vec<u32>,
+    pub(super) foreign_rows: u32,
+    /// DNS lookups performed so far
+    pub(super) lookups: usize,
+    pub(super) s2_told: Vec<Told>,
+    pub(super) system_alive: bool,
+}
+
+#[derive(Clone, Debug, PartialEq, Eq, Hash, Default)]
+pub(super) struct E2Obs {
+    pub(super) steps: Vec<E2Step>,
+    /// for every S1 source (appearance number): (lookups counted when it was first seen, address it polls)
+    pub(super) s1_sources: Vec<(usize, String)>,
+}
+
+pub(super) fn run_e2e(evs: &[E2]) -> E2Obs {
+    let evs = evs.to_vec();
+    super::block_on_paused(async move {
+        let mut sys = sp::Sys::new();
+        let raw = dns_raw();
+        let (addr, tap) = dns::scripted("pool.gt.test", PORT, &raw);
+        let s1 = StandardSpawner::new(
+            StandardSource {
+                address: NtpAddress(addr),
+                ntp_version: ProtocolVersion::V4,
+            },
+            SourceConfig::default(),
+        );
+        let n1 = sys.add_spawner(s1);
+        let (m2, id2, log2) = MockSpawner::new();
+        let n2 = sys.add_spawner(m2);
+        let taps = sys.taps();
+        let (handle, _guard) = sys.run();
+        let mut s1_ids: Vec<ClockId> = Vec::new();
+        let mut s1_seen_at: Vec<usize> = Vec::new();
+        let mut s2_ids: Vec<ClockId> = Vec::new();
+        let mut obs = E2Obs::default();
+        for ev in &evs {
+            let mut step = E2Step::default();
+            let rows = taps.rows();
+            match *ev {
+                E2::W => {
+                    step.applied = true;
+                    tokio::time::sleep(Duration::from_millis(1100)).await;
+                }
+                E2::R(k) => {
+                    if let Some(r) = rows.iter().filter(|r| r.spawner == n1).last() {
+                        step.applied = true;
+                        step.target = s1_ids.iter().position(|x| *x == r.key).map(|p| p as u32);
+                        let _ = taps.msg_tx.send(k.msg(r.key)).await; // what the source task does
+                    }
+                }
+                E2::M => {
+                    step.applied = true;
+                    let id = ClockId::new();
+                    let idx = s2_ids.len();
+                    s2_ids.push(id);
+                    let _ = taps
+                        .spawn_tx
+                        .send(SpawnEvent::new(id2, SpawnAction::Create(ntp_params(id, idx))))
+                        .await; // what a spawner task does
+                }
+                E2::Q(k) => {
+                    if let Some(r) = rows.iter().filter(|r| r.spawner == n2).last() {
+                        step.applied = true;
+                        step.target = s2_ids.iter().position(|x| *x == r.key).map(|p| p as u32);
+                        let _ = taps.msg_tx.send(k.msg(r.key)).await;
+                    }
+                }
+            }
+            sync().await;
+            step.lookups = tap.lookups().unwrap_or(usize::MAX);
+            for r in taps.rows() {
+                if r.spawner == n1 {
+                    let p = match s1_ids.iter().position(|x| *x == r.key) {
+                        Some(p) => p,
+                        None => {
+                            s1_ids.push(r.key);
+                            s1_seen_at.push(step.lookups);
+                            s1_ids.len() - 1
+                        }
+                    };
+                    step.s1_rows.push(p as u32);
+                } else if r.spawner == n2 {
+                    match s2_ids.iter().position(|x| *x == r.key) {
+                        Some(p) => step.s2_rows.push(p as u32),
+                        None => step.foreign_rows += 1,
+                    }
+                } else {
+                    step.foreign_rows += 1;
+                }
+            }
+            step.s1_rows.sort();
+            step.s2_rows.sort();
+            step.s2_told = log2
+                .lock()
+                .unwrap()
+                .told
+                .iter()
+                .map(|(reg, id, r)| {
+                    let i = s2_ids.iter().position(|x| x == id).map(|p| p as u8).unwrap_or(254);
+                    if *reg { Told::Reg(i) } else { Told::Rem(i, *r) }
+                })
+                .collect();
+            step.system_alive = !handle.is_finished();
+            obs.steps.push(step);
+        }
+        for _ in 0..20 {
+            let snaps = taps.snapshot_rows();
+            if s1_ids.iter().all(|id| snaps.iter().any(|s| s.0 == *id)) {
+                break;
+            }
+            sync().await;
+        }
+        let snaps = taps.snapshot_rows();
+        obs.s1_sources = s1_ids
+            .iter()
+            .zip(&s1_seen_at)
+            .map(|(id, at)| {
+                (
+                    *at,
+                    snaps.iter().find(|s| s.0 == *id).map(|s| s.2.clone()).unwrap_or_default(),
+                )
+            })
+            .collect();
+        handle.abort();
+        let _ = handle.await;
+        obs
+    })
+}
+
+#[derive(Default, Clone, Debug)]
+pub(super) struct E2Stats {
+    pub(super) steps: u64,
+    pub(super) noop_steps: u64,
+    pub(super) s1_creates: u64,
+    pub(super) respawn_after_unreachable: u64,
+    pub(super) respawn_after_network_issue: u64,
+    pub(super) respawn_after_network_issue_with_lookup: u64,
+    pub(super) respawn_in_report_step: u64,
+    pub(super) respawn_in_wait_step: u64,
+    pub(super) runs_with_demobilisation: u64,
+    pub(super) steps_after_demobilisation: u64,
+    pub(super) s2_removals_while_s1_live: u64,
+}
+
+/// Statement-level oracle for part E.
+pub(super) fn judge_e2e(evs: &[E2], obs: &E2Obs) -> (Option<Finding>, E2Stats) {
+    let mut st = E2Stats::default();
+    let raw = dns_raw();
+    let first_of = |k: usize| raw[(raw.len() - (k % raw.len())) % raw.len()].to_string();
+    // model of S1 (plain single-server spawner, from the statement)
+    let mut live1: Option<u32> = None;
+    let mut demob = false;
+    // pending respawn: (reason, lookups when the removal was sent, a full wait has passed since)
+    let mut pending: Option<(Kind, usize, bool)> = Some((Kind::N, 0, false)); // start-up: wants its first source
+    let mut known1: u32 = 0;
+    // model of S2
+    let mut live2: Vec<u32> = Vec::new();
+    let mut told2: Vec<Told> = Vec::new();
+    let mut n2: u32 = 0;
+    let mut prev_lookups = 0usize;
+    macro_rules! fail {
+        ($code:expr, $i:expr, $($a:tt)*) => {
+            return (Some(Finding { code: $code, what: format!($($a)*), step: $i }), st)
+        };
+    }
+    for (i, ev) in evs.iter().enumerate() {
+        let s = &obs.steps[i];
+        st.steps += 1;
+        if !s.applied {
+            st.noop_steps += 1;
+        }
+        if !s.system_alive {
+            fail!("e2e-system-task-ended", i, "the system task ended at step {i} ({ev:?})");
+        }
+        if s.foreign_rows != 0 {
+            fail!("e2e-foreign-source", i, "{} rows in the table belong to nobody", s.foreign_rows);
+        }
+        if demob {
+            st.steps_after_demobilisation += 1;
+        }
+        // --- what the event itself does
+        match *ev {
+            E2::W => {
+                if let Some(p) = pending.as_mut() {
+                    p.2 = true;
+                }
+            }
+            E2::R(k) => {
+                if s.applied {
+                    if s.target != live1 {
+                        fail!("e2e-rig", i, "report target {:?} but model live {:?}", s.target, live1);
+                    }
+                    live1 = None;
+                    match k {
+                        Kind::D => {
+                            demob = true;
+                            pending = None;
+                            st.runs_with_demobilisation += 1;
+                        }
+                        _ => pending = Some((k, prev_lookups, false)),
+                    }
+                }
+            }
+            E2::M => {
+                live2.push(n2);
+                told2.push(Told::Reg(n2 as u8));
+                n2 += 1;
+            }
+            E2::Q(k) => {
+                if s.applied {
+                    let t = live2.pop().unwrap_or(u32::MAX);
+                    if s.target != Some(t) {
+                        fail!("e2e-rig", i, "S2 report target {:?} but model {:?}", s.target, t);
+                    }
+                    told2.push(Told::Rem(t as u8, k.expected_reason()));
+                    if live1.is_some() {
+                        st.s2_removals_while_s1_live += 1;
+                    }
+                }
+            }
+        }
+        // --- S2's side: exact
+        let mut l2 = live2.clone();
+        l2.sort();
+        if s.s2_rows != l2 {
+            fail!("e2e-s2-table", i, "S2 sources in the table {:?}, want {:?}", s.s2_rows, l2);
+        }
+        if s.s2_told != told2 {
+            let code = if s.s2_told.len() < told2.len() { "e2e-removal-not-notified" } else { "e2e-s2-notifications" };
+            fail!(code, i, "S2 was told {:?}, want {:?}", s.s2_told, told2);
+        }
+        // --- S1's side: the reported source must be gone, every new source must be justified
+        let mut new1: Vec<u32> = s.s1_rows.iter().copied().filter(|p| *p >= known1).collect();
+        new1.sort();
+        let old1: Vec<u32> = s.s1_rows.iter().copied().filter(|p| *p < known1).collect();
+        let want_old: Vec<u32> = live1.into_iter().collect();
+        if old1 != want_old {
+            fail!("e2e-source-not-removed", i, "S1 sources still in the table {:?}, want {:?}", old1, want_old);
+        }
+        if new1.len() > 1 {
+            fail!("e2e-spurious-create", i, "{} new S1 sources in one step", new1.len());
+        }
+        if let Some(p) = new1.first().copied() {
+            known1 = p + 1;
+            st.s1_creates += 1;
+            if demob {
+                fail!("e2e-demobilized-respawned", i, "S1 created a source after its source was demobilised");
+            }
+            if live1.is_some() {
+                fail!("e2e-spurious-create", i, "S1 created a second source while source {:?} is live", live1);
+            }
+            let Some((k, at, _)) = pending else {
+                fail!("e2e-spurious-create", i, "S1 created a source without reason");
+            };
+            let (seen_at, addr) = &obs.s1_sources[p as usize];
+            if k == Kind::U {
+                st.respawn_after_unreachable += 1;
+                if s.lookups <= at {
+                    fail!(
+                        "e2e-unreachable-not-reresolved",
+                        i,
+                        "source created after an Unreachable removal without a new lookup (lookups {} before, {} now)",
+                        at,
+                        s.lookups
+                    );
+                }
+            } else if i > 0 || at > 0 {
+                st.respawn_after_network_issue += 1;
+                if s.lookups > at {
+                    st.respawn_after_network_issue_with_lookup += 1;
+                }
+            }
+            if *addr != first_of(*seen_at) {
+                fail!(
+                    "e2e-address-not-from-latest-lookup",
+                    i,
+                    "new source polls {} but the latest ({}th) lookup answered {} first",
+                    addr,
+                    seen_at,
+                    first_of(*seen_at)
+                );
+            }
+            if matches!(ev, E2::W) {
+                st.respawn_in_wait_step += 1;
+            } else {
+                st.respawn_in_report_step += 1;
+            }
+            live1 = Some(p);
+            pending = None;
+        } else if let (E2::W, Some((k, _, true))) = (*ev, pending) {
+            // a full network wait period passed with S1 incomplete: it must have attempted and (DNS answers) created
+            fail!("e2e-not-respawned", i, "S1 has no source a full wait after {:?}", k);
+        }
+        if s.lookups < prev_lookups {
+            fail!("e2e-rig", i, "lookup counter went backwards");
+        }
+        prev_lookups = s.lookups;
+    }
+    (None, st)
+}
+
+// ---------------------------------------------------------------------------------------------
+// Part K: soak — nothing injected, the real source task gives up on its own
+// ---------------------------------------------------------------------------------------------
+
+#[derive(Clone, Debug, PartialEq, Eq, Hash, Default)]
+pub(super) struct SoakObs {
+    /// addresses of the successive sources of the real StandardSpawner
+    pub(super) addresses: Vec<String>,
+    pub(super) lookups_when_seen: Vec<usize>,
+    pub(super) max_live_rows: usize,
+    /// at every change of source: snapshot ids other than the live one (must be none: the old task removed its entry)
+    pub(super) stale_snapshots: usize,
+    pub(super) system_alive: bool,
+    pub(super) clock_adjustments: u64,
+}
+
+/// Real system `run` loop + real `StandardSpawner` + real source tasks polling a closed loopback port. Each
+/// source task reports `Unreachable` by itself after three unanswered polls (C11); the report travels
+/// msg channel -> `handle_source_update` -> `SourceRemoved{Unreachable}` -> `StandardSpawner` -> new lookup.
+pub(super) fn run_soak(want_sources: usize) -> SoakObs {
+    super::block_on_paused(async move {
+        let mut sys = sp::Sys::new();
+        let raw = dns_raw();
+        let (addr, tap) = dns::scripted("pool.gt.test", PORT, &raw);
+        let n1 = sys.add_spawner(StandardSpawner::new(
+            StandardSource {
+                address: NtpAddress(addr),
+                ntp_version: ProtocolVersion::V4,
+            },
+            SourceConfig::default(),
+        ));
+        let taps = sys.taps();
+        let (handle, _guard) = sys.run();
+        let mut obs = SoakObs::default();
+        let mut ids: Vec<ClockId> = Vec::new();
+        for _ in 0..(want_sources * 80) {
+            tokio::time::sleep(Duration::from_millis(1000)).await;
+            sync().await;
+            let rows = taps.rows();
+            obs.max_live_rows = obs.max_live_rows.max(rows.len());
+            for r in &rows {
+                if r.spawner == n1 && !ids.contains(&r.key) {
+                    ids.push(r.key);
+                    obs.lookups_when_seen.push(tap.lookups().unwrap_or(usize::MAX));
+                    // the new source has polled once by now (timer 0 s): its entry is there, the old one is gone
+                    let snaps = taps.snapshot_rows();
+                    obs.addresses
+                        .push(snaps.iter().find(|s| s.0 == r.key).map(|s| s.2.clone()).unwrap_or_default());
+                    obs.stale_snapshots += snaps.iter().filter(|s| s.0 != r.key).count();
+                }
+            }
+            if ids.len() >= want_sources {
+                break;
+            }
+        }
+        obs.system_alive = !handle.is_finished();
+        obs.clock_adjustments = _guard.clock_adjustments();
+        handle.abort();
+        let _ = handle.await;
+        obs
+    })
+}
+
+pub(super) fn judge_soak(obs: &SoakObs, want_sources: usize) -> Option<Finding> {
+    let raw = dns_raw();
+    let want: Vec<String> = (1..=want_sources)
+        .map(|k| raw[(raw.len() - (k % raw.len())) % raw.len()].to_string())
+        .collect();
+    let f = |code: &'static str, what: String| Some(Finding { code, what, step: 0 });
+    if !obs.system_alive {
+        return f("soak-system-task-ended", "the system task ended".into());
+    }
+    if obs.addresses.len() < want_sources {
+        return f(
+            "soak-unreachable-source-not-replaced",
+            format!("only {} sources in {} s: {:?}", obs.addresses.len(), want_sources * 80, obs.addresses),
+        );
+    }
+    if obs.addresses != want || obs.lookups_when_seen != (1..=want_sources).collect::<Vec<_>>() {
+        return f(
+            "soak-unreachable-not-reresolved",
+            format!(
+                "successive sources poll {:?} after {:?} lookups; want {:?} (one new lookup per replacement)",
+                obs.addresses, obs.lookups_when_seen, want
+            ),
+        );
+    }
+    if obs.max_live_rows != 1 {
+        return f("soak-source-not-removed", format!("up to {} sources in the table", obs.max_live_rows));
+    }
+    if obs.stale_snapshots != 0 {
+        return f("soak-snapshot-left-behind", format!("{} snapshot entries of replaced sources", obs.stale_snapshots));
+    }
+    None
+}
+
+// ---------------------------------------------------------------------------------------------
+// replay + check
+// ---------------------------------------------------------------------------------------------
+
+pub(super) fn replay_any(ctx: &Ctx, prefix: &str, trace: &str) -> String {
+    let t = trace.trim();
+    if let Some(rest) = t.strip_prefix("E:") {
+        let Some(evs) = parse_e2(rest) else {
+            return format!("unparsable trace {t}");
+        };
+        let obs = run_e2e(&evs);
+        if let (Some(f), _) = judge_e2e(&evs, &obs) {
+            ctx.violation(&format!("{prefix}:system-{}", f.code), f.what, t);
+        }
+        return format!("{:?}", obs);
+    }
+    if let Some(rest) = t.strip_prefix("K:") {
+        let n: usize = rest.trim().parse().unwrap_or(3);
+        let obs = run_soak(n);
+        if let Some(f) = judge_soak(&obs, n) {
+            ctx.violation(&format!("{prefix}:system-{}", f.code), f.what, t);
+        }
+        return format!("{:?}", SoakObs { clock_adjustments: 0, ..obs });
+    }
+    let rest = t.strip_prefix("X:").unwrap_or(t);
+    let Some(evs) = parse_trace(rest) else {
+        return format!("unparsable trace {t}");
+    };
+    let run = run_trace(&evs);
+    if let (Some(f), _, _) = judge(&evs, &run) {
+        ctx.violation(&format!("{prefix}:system-{}", f.code), f.what, t);
+    }
+    format!("{:?}", run)
+}
+
+fn replay(ctx: &Ctx, trace: &str) -> String {
+    replay_any(ctx, "C36", trace)
+}
+
+#[test]
+fn check() {
+    let ctx = Ctx::new("C36");
+    if let Some(t) = common::replay_trace() {
+        let a = replay(&ctx, &t);
+        let b = replay(&ctx, &t);
+        common::report_replay("C36", &a, &b, ctx.violation_count() > 0);
+        return;
+    }
+    ctx.rule(
+        "X: event sequences S<i> (spawner i creates a source) / R<j><k> (source j, live or not or never created, reports \
+         k in D,N,U) against the real SystemTask with two recording spawners: (1) ALL sequences up to the depth, (2) every \
+         (state,event) of the deduplicated state graph (state = per created source: owner, live/removed-by-k); a case is \
+         distinct by (trace, observed table + notifications per step). E: all words over {W,RD,RN,RU,M,rD,rN,rU} with the \
+         real StandardSpawner as S1 under the real run loop; distinct by (word, observation). K: one soak run.",
+    );
+    ctx.assume(
+        "a source id is reported to the system at most once and only after it was created: the NTP source task sends \
+         exactly one message and returns (checked by c11_task: C11:task-report-repeated / -sends-after-report), sock/pps/\
+         csptp tasks never report, ids come from ClockId::new(). A report for an id that is not live is therefore outside \
+         the system task's environment; it is still enumerated: it must not touch any other source or notify anybody, \
+         but whether it is ignored or aborts the system task (HEAD: Option::unwrap on None) is recorded, not judged",
+    );
+    ctx.assume(
+        "reports are injected through handle_source_update (part X) / the msg channel the source tasks hold (part E); the \
+         real source tasks created by create_source keep running (the system holds no handle to them; a reporting task \
+         ends itself and removes its own snapshot entry — c11_task); only part K lets the real task report",
+    );
+    ctx.assume("mock clock (MockClock) instead of the kernel clock; the cfg(test) DNS stub answers (8 distinct addresses)");
+
+    let quick = ctx.quick();
+    let stale_terminal = stale_report_aborts();
+    ctx.set("x_stale_report_aborts_in_this_build", stale_terminal as u64);
+    let mut all: Vec<(Finding, String, &'static str)> = Vec::new();
+
+    // ---- part X
+    let (d_full, d_graph) = if quick { (6, 7) } else { (7, 9) };
+    let p1 = full_tree(d_full, 3, stale_terminal);
+    ctx.set("x_full_tree_depth", d_full as u64);
+    ctx.set("x_full_tree_traces", p1.traces.len() as u64);
+    ctx.set("x_full_tree_edges", p1.edges);
+    ctx.set("x_full_tree_states", p1.states.len() as u64);
+    for (f, t) in run_plan(&ctx, &p1, 37) {
+        all.push((f, t, "X"));
+    }
+    let p2 = state_graph(d_graph, 3);
+    ctx.set("x_state_graph_depth", d_graph as u64);
+    ctx.set("x_state_graph_states", p2.states.len() as u64);
+    ctx.set("x_state_graph_edges", p2.edges);
+    for (f, t) in run_plan(&ctx, &p2, 37) {
+        all.push((f, t, "X"));
+    }
+    ctx.set("states", (p1.states.len().max(p2.states.len())) as u64);
+    ctx.set("transitions", p1.edges + p2.edges);
+    ctx.set("evaluations", (p1.traces.len() + p2.traces.len()) as u64);
+    for t in p1.traces.iter().filter(|t| t.len() == d_full).step_by(p1.traces.len().max(1) / 5 + 1) {
+        ctx.sample(format!("X:{}", fmt_trace(t)));
+    }
+
+    // ---- part E
+    let lens: &[usize] = if quick { &[5] } else { &[6, 7] };
+    let est: Mutex<E2Stats> = Mutex::new(E2Stats::default());
+    let e_find: Mutex<Vec<(Finding, String)>> = Mutex::new(Vec::new());
+    let e_nondet = std::sync::atomic::AtomicU64::new(0);
+    let mut e_words = 0u64;
+    for &n in lens {
+        if ctx.over_budget() {
+            ctx.cap_hit(&format!("part E length {n} not started"));
+            break;
+        }
+        let total = common::pow(E2_ALPHABET.len(), n);
+        e_words += total;
+        common::par_for(total, 8, |i| {
+            let w: Vec<E2> = common::word_of(i, E2_ALPHABET.len(), n).iter().map(|x| E2_ALPHABET[*x]).collect();
+            let obs = run_e2e(&w);
+            if i % 41 == 0 && run_e2e(&w) != obs {
+                e_nondet.fetch_add(1, std::sync::atomic::Ordering::Relaxed);
+            }
+            ctx.distinct(common::hash_of(&(&w, &obs)));
+            let (f, s) = judge_e2e(&w, &obs);
+            {
+                let mut t = est.lock().unwrap();
+                t.steps += s.steps;
+                t.noop_steps += s.noop_steps;
+                t.s1_creates += s.s1_creates;
+                t.respawn_after_unreachable += s.respawn_after_unreachable;
+                t.respawn_after_network_issue += s.respawn_after_network_issue;
+                t.respawn_after_network_issue_with_lookup += s.respawn_after_network_issue_with_lookup;
+                t.respawn_in_report_step += s.respawn_in_report_step;
+                t.respawn_in_wait_step += s.respawn_in_wait_step;
+                t.runs_with_demobilisation += s.runs_with_demobilisation;
+                t.steps_after_demobilisation += s.steps_after_demobilisation;
+                t.s2_removals_while_s1_live += s.s2_removals_while_s1_live;
+            }
+            if let Some(f) = f {
+                let upto = (f.step + 1).min(w.len());
+                e_find.lock().unwrap().push((f, fmt_e2(&w[..upto])));
+            }
+        });
+    }
+    {
+        let t = est.lock().unwrap();
+        ctx.set("e_words", e_words);
+        ctx.set("e_steps", t.steps);
+        ctx.set("e_noop_steps", t.noop_steps);
+        ctx.set("e_s1_creates", t.s1_creates);
+        ctx.set("e_respawn_after_unreachable_all_with_fresh_lookup", t.respawn_after_unreachable);
+        ctx.set("e_respawn_after_network_issue", t.respawn_after_network_issue);
+        ctx.set("e_respawn_after_network_issue_with_lookup", t.respawn_after_network_issue_with_lookup);
+        ctx.set("e_respawn_in_report_step", t.respawn_in_report_step);
+        ctx.set("e_respawn_in_wait_step", t.respawn_in_wait_step);
+        ctx.set("e_runs_with_demobilisation", t.runs_with_demobilisation);
+        ctx.set("e_steps_after_demobilisation_without_respawn", t.steps_after_demobilisation);
+        ctx.set("e_s2_removals_while_s1_live", t.s2_removals_while_s1_live);
+        ctx.add("determinism_differences", e_nondet.load(std::sync::atomic::Ordering::Relaxed));
+        ctx.add("evaluations", e_words);
+        ctx.add("transitions", t.steps);
+    }
+    let mut ev = e_find.into_inner().unwrap();
+    ev.sort_by(|a, b| (a.1.len(), &a.1, a.0.code).cmp(&(b.1.len(), &b.1, b.0.code)));
+    ev.dedup_by(|a, b| a.1 == b.1 && a.0.code == b.0.code);
+    for (f, t) in ev {
+        all.push((f, t, "E"));
+    }
+    ctx.sample("E:W,RU,W,M,rD");
+
+    // ---- part K
+    let k_n = if quick { 3 } else { 6 };
+    let soak = run_soak(k_n);
+    ctx.set("k_sources_replaced_by_real_task_reports", soak.addresses.len().saturating_sub(1) as u64);
+    ctx.set("k_clock_adjustments_on_mock", soak.clock_adjustments);
+    ctx.add("evaluations", 1);
+    if let Some(f) = judge_soak(&soak, k_n) {
+        all.push((f, format!("{k_n}"), "K"));
+    }
+    ctx.sample(format!("K:{k_n} -> {:?}", soak.addresses));
+
+    if ctx.get("determinism_differences") > 0 {
+        ctx.violation("C36:system-nondeterministic-observation", "a re-run of the same trace observed something else", "");
+    }
+    for (f, t, part) in all {
+        ctx.violation(&format!("C36:system-{}", f.code), f.what, format!("{part}:{t}"));
+    }
+    ctx.exhaustive(true);
+    ctx.finish();
+}
